@@ -345,7 +345,7 @@ func Run(s Scenario) *Outcome {
 	type upRT struct {
 		up      *iscp.Upstream
 		out     *UpOutcome
-		counter int
+		writers atomic.Int64 // every writer goroutine gets its own writer id: order is only defined per writer
 		resumed atomic.Int64
 	}
 	var ups []*upRT
@@ -447,10 +447,11 @@ func Run(s Scenario) *Outcome {
 
 	// phase A traffic
 	write := func(u *upRT, n int, gap time.Duration) {
+		wid := int(u.writers.Add(1))
 		for k := 0; k < n; k++ {
-			u.counter++
+			cn := k + 1
 			ctx, c := context.WithTimeout(bg, callT)
-			err := u.out.Rec.Write(ctx, u.up, 1, id, []int{u.counter}, []int{40})
+			err := u.out.Rec.Write(ctx, u.up, wid, id, []int{cn}, []int{40})
 			c()
 			if err != nil && errors.Is(err, iscperrors.ErrStreamClosed) {
 				u.out.WriteStreamClosed = true
@@ -658,8 +659,7 @@ func Run(s Scenario) *Outcome {
 		// probe: one write + flush must be transmitted on the current link and acknowledged (ack hook fires)
 		_, _, acksBefore, _ := u.out.Rec.Snapshot()
 		ctx, c := context.WithTimeout(bg, callT)
-		u.counter++
-		err := u.out.Rec.Write(ctx, u.up, 1, id, []int{u.counter}, []int{40})
+		err := u.out.Rec.Write(ctx, u.up, int(u.writers.Add(1)), id, []int{1}, []int{40})
 		if err == nil {
 			err = u.up.Flush(ctx)
 		}
